@@ -1,5 +1,7 @@
 import EmmyVerif.Lemmas.TyUnion
 import EmmyVerif.Lemmas.TyCheck
+import EmmyVerif.Lemmas.TySubtype
+import EmmyVerif.Lemmas.TyRefl2
 /-!
 # C16 — Type assignability obeys the basic laws of subtyping; batch union = fold
 
@@ -82,15 +84,42 @@ theorem C16_check_any_unknown (e : Env) (s : Ty) (hs : s = tAny ∨ s = tUnknown
       checkGeneral e ip f lvl s c = .outOfFuel) :=
   ⟨checkGeneral_source_likeAny_no_alias e ip s hs f lvl c, checkGeneral_source_likeAny e ip s hs f lvl c⟩
 
-/-- **reflexivity, atoms.** Every basic kind except `self`, every literal constant and every class or
-alias reference is assignable to itself. (Compound types: see the notes; covered by the tie + oracle.) -/
-theorem C16_check_refl_atom_partial (e : Env) (f lvl : Nat) (t : Ty)
-    (ht : (∃ k, t = .prim k ∧ k ≠ .selfInfer) ∨ (∃ c, t = .lit c) ∨ (∃ n, t = .ref n)) :
-    checkGeneral e ip (f + 2) lvl t t = .ok := by
-  rcases ht with ⟨k, rfl, hk⟩ | ⟨c, rfl⟩ | ⟨n, rfl⟩
-  · exact checkGeneral_refl_prim e ip (f + 1) lvl k hk
-  · exact checkGeneral_refl_lit e ip f lvl c
-  · exact checkGeneral_refl_ref e ip (f + 1) lvl n
+/-- **reflexivity.** For every environment and every well-formed type `t` (`wf e t`, decidable: no
+`self` / `never` / function type; every reference is a declared class; union members are atoms,
+pairwise distinct, at least two; record keys distinct; arrays, tuples, `table<…>` of any arity and
+records nest arbitrarily): a value of type `t` is accepted where `t` is expected — at every guard
+level that leaves `lv t` levels (5 per array nesting, 2 per tuple / table / record nesting, 4 for a
+union) and with `fd t` or more units of model fuel. `C16_check_deep_is_recursion_error` shows the level
+bound is needed. Outside `wf`: aliases (covered by the tie and the oracle only), and the genuinely
+non-reflexive `self`, `never[]` and unions mentioning undeclared classes. -/
+theorem C16_check_refl (e : Env) (t : Ty) (hw : wf e t = true) (ip : List (Name × Ty)) (f lvl : Nat)
+    (hl : lvl + lv t ≤ maxLevel) : checkGeneral e ip (f + fd t) lvl t t = .ok :=
+  refl_ty e t hw ip f lvl hl
+
+/-- at the entry point: every well-formed type whose measures fit the guard and the model's fuel -/
+theorem C16_check_refl_top (e : Env) (t : Ty) (hw : wf e t = true) (hl : lv t ≤ maxLevel)
+    (hf : fd t ≤ checkFuel) : checkTop e t t = .ok := by
+  have := refl_ty e t hw [] (checkFuel - fd t) 0 (by omega)
+  rwa [show checkFuel - fd t + fd t = checkFuel from by omega] at this
+
+/-- **every member of a union is accepted where the union is expected** — for unions whose members
+are atoms (`isAtom`: basic kinds except `self`/`never`, literal constants, references to declared
+classes), any environment, any level with two levels of headroom. -/
+theorem C16_check_union_member (e : Env) (ip : List (Name × Ty)) (f lvl : Nat) (ms : TyL) (c : Ty)
+    (hms : ∀ m ∈ ms.toList, isAtom e m = true) (hc : c ∈ ms.toList) (hl : lvl + 1 < maxLevel) :
+    checkGeneral e ip (f + 5) lvl (.union ms) c = .ok :=
+  union_member_atoms e ip f lvl ms c hms hc hl
+
+/-- **the guard's error branch** (`check_deep_is_recursion_error`): with strict array indexing every
+array nesting costs two guard levels, so an array type nested 51 or more times is answered
+`TypeRecursion` even against itself — for every environment. (Reflexivity therefore needs the nesting
+bound of `WellFormed`.) -/
+theorem C16_check_deep_is_recursion_error (e : Env) (harr : e.arrayIndex = true) (k : Nat)
+    (h1 : 51 ≤ k) (h2 : k ≤ 239) :
+    checkTop e (arrN k (.prim .string)) (arrN k (.prim .string)) = .recursion := by
+  have := check_deep_recursion e harr [] k 0 (checkFuel - 3) (by decide) (by unfold maxLevel; omega)
+    (by unfold checkFuel; omega)
+  simpa [checkTop, checkFuel] using this
 
 /-- a `table<…>` instance of any arity is assignable to itself (finding `C16-table-arity`, fixed:
 equal arities are compared parameter by parameter) -/
@@ -107,6 +136,9 @@ theorem C16_refl_self_witness :
   decide +kernel
 
 /-! Non-vacuity (tests, labelled as such). -/
+example : wf { decls := [{ name := "A".toList, kind := .cls, supers := [] }] }
+    (.array (.tgen (TyL.ofList [.prim .string, Ty.mk [.ref "A".toList, .lit (.docInt 1), tNil]]))) = true := by
+  decide
 example : checkTop { decls := [] } (.array (.prim .string)) (.array (.prim .string)) = .ok := by decide +kernel
 example : checkTop { decls := [{ name := "A".toList, kind := .cls, supers := [] },
     { name := "B".toList, kind := .cls, supers := ["A".toList] },
